@@ -214,8 +214,13 @@ def run(cx, rep):
         m = re.match(r"^(\w+)\[\((\w+)-(\d+)\)\]$", opnd)
         return (m.group(1), int(m.group(3))) if m else None
     if "sigma0" in found and "sigma1" in found:
-        o0 = offset_of(sorted(found["sigma0"][1])[0])
-        o1 = offset_of(sorted(found["sigma1"][1])[0])
+        pal = ts_common.local_aliases(pc)
+
+        def through_alias(opnd):
+            # `const w15 = words[i - 15]` read once into a local
+            return s(pal[opnd]) if opnd in pal else opnd
+        o0 = offset_of(through_alias(sorted(found["sigma0"][1])[0]))
+        o1 = offset_of(through_alias(sorted(found["sigma1"][1])[0]))
         rep.ob("C13.1", "schedule/sigma-operands", o0 is not None and o1 is not None and o0[1] == 15 and o1[1] == 2 and o0[0] == o1[0],
                "message schedule: sigma0 must read W[i-15] and sigma1 W[i-2] (found %s / %s)" % (o0, o1), mod.loc(found["sigma0"][2]))
         # W[i] = W[i-16] + s0 + W[i-7] + s1
@@ -377,7 +382,15 @@ def run(cx, rep):
             okl = shifts(hi) == [24, 16, 8, 0] and shifts(lo) == [24, 16, 8, 0] and len({re.sub(r"[^A-Za-z]", "", x) for x in hi}) == 1 and \
                 re.sub(r"[^A-Za-z]", "", hi[0]) != re.sub(r"[^A-Za-z]", "", lo[0])
         rep.ob("C13.1", "length-field", okl, "the 64-bit big-endian bit length must occupy bytes 56..63 (found %s)" % idx, mod.loc(dg), sample={"bytes": idx})
-        bl = [s(n["init"]) for n in walk(dg) if n["type"] == "VariableDeclarator" and n.get("init") is not None and "*8" in s(n["init"])]
+        dal = ts_common.local_aliases(dg)
+        times8 = {k for k, v in dal.items() if "*8" in s(v) and "4294967296" not in s(v) and ">>>" not in s(v)}
+
+        def expand(txt):
+            for k in times8:
+                txt = re.sub(r"(?<![\w.])%s(?![\w])" % re.escape(k), "(" + s(dal[k]) + ")", txt)
+            return txt
+        bl = [expand(s(n["init"])) for n in walk(dg) if n["type"] == "VariableDeclarator" and n.get("init") is not None and n["id"].get("value") not in times8
+              and "*8" in expand(s(n["init"]))]
         rep.ob("C13.1", "bit-length", len(bl) == 2 and any("4294967296" in x for x in bl) and any(">>>0" in x for x in bl),
                "bit length = bytes*8 split into high (/2^32) and low (>>>0) words (found %s)" % bl, mod.loc(dg))
     # ---------------------------------------------------------------- C13.3 (writer primitives)
